@@ -3,6 +3,7 @@ package specgen
 import (
 	"encoding/json"
 	"fmt"
+	"math"
 	"math/big"
 	"sort"
 	"strconv"
@@ -47,6 +48,15 @@ func (g InstGen) genNumber(t *rapid.T, s *Schema) json.Number {
 		hi, _ = new(big.Rat).SetString(s.Max)
 		if s.Min == "" {
 			lo = new(big.Rat).Sub(hi, big.NewRat(40, 1))
+		}
+	}
+	if integer {
+		// instances stay inside int64 (bounds may sit at its ends)
+		if max64 := new(big.Rat).SetInt64(math.MaxInt64); hi.Cmp(max64) > 0 {
+			hi = max64
+		}
+		if min64 := new(big.Rat).SetInt64(math.MinInt64); lo.Cmp(min64) < 0 {
+			lo = min64
 		}
 	}
 	if s.MultipleOf != "" {
